@@ -79,8 +79,8 @@ I.Interp._orig_builtin_skel = I.Interp.call_builtin
 def _builtin_skel(self, name, args, kwargs, st, node):
     if name == "super":
         return st.env["self"]
-    if name == "float" and args and isinstance(args[0], Record) and args[0].cls == "Hole":
-        return args[0].fields["value"]
+    if name in ("float", "int") and args and isinstance(args[0], Record) and args[0].cls == "Hole":
+        return args[0].fields["value"] if name == "float" else int(args[0].fields["value"])
     return I.Interp._orig_builtin_skel(self, name, args, kwargs, st, node)
 
 
@@ -490,3 +490,87 @@ def _printer_attr_fallback(ctx, st, rec, attr):
 
 
 registry.RECORD_ATTR_FALLBACK = {"PrinterHoles": _printer_attr_fallback}
+
+
+# ----------------------------------------------------------------------------------------------- C printer (C02) and JAX printer (C03)
+CP = "gotranx.codegen.c.GotranCCodePrinter."
+
+
+def c_piecewise_assign(n, last_true=True, same_lhs=True):
+    """Piecewise((Assignment(L, R_i), C_i), ...) as sympy's code printer builds it for `L = Piecewise(...)`"""
+    args = []
+    for i in range(n):
+        c = hole("true" if (i == n - 1 and last_true) else f"C{i}", "cond")
+        a = hole(f"asg{i}", "Assignment", [hole("L" if (same_lhs or i == 0) else f"L{i}"), hole(f"R{i}")])
+        args.append(Record("Hole", {"text": f"pair{i}", "args": [a, c], "kind": "pair", "expr": a, "cond": c}))
+    return hole("PW", "Piecewise", args)
+
+
+@registry.spec("c_ternary_chain")
+def _c_ternary_chain(ctx, st, pw):
+    pairs = pw.fields["args"]
+    out = pairs[-1].fields["args"][0].fields["args"][1].fields["text"]
+    for p in reversed(pairs[:-1]):
+        out = f"({p.fields['args'][1].fields['text']}) ? {p.fields['args'][0].fields['args'][1].fields['text']} : {out}"
+    return f"{pairs[0].fields['args'][0].fields['args'][0].fields['text']} = {out};"
+
+
+@registry.spec("same_tokens")
+def _same_tokens(ctx, st, a, b):
+    tok = lambda s: re.findall(r"[A-Za-z_]\w*|\d+(?:\.\d+)?|\S", s)  # noqa: E731
+    return isinstance(a, str) and isinstance(b, str) and tok(a) == tok(b)
+
+
+contract(CP + "_print_Piecewise", params={"self": "any", "expr": "any"}, ret="PyStr",
+         enum_params={"self": [printer_self("true")],
+                      "expr": [c_piecewise_assign(n) for n in (2, 3, 4)] + [c_piecewise_assign(2, last_true=False), c_piecewise_assign(3, same_lhs=False)]},
+         raises={"AssertionError": "any(p.expr.args[0].text != 'L' for p in expr.args)", "ValueError": "expr.args[-1].cond.text != 'true'"},
+         ensures={"first_true_branch_as_a_conditional_chain_assigned_once": "same_tokens(result, c_ternary_chain(expr))"},
+         properties=("C02",),
+         note="BOUNDED: 2..4 branches, assignment form (what sympy's printer hands over for `lhs = Piecewise(...)`); the expression "
+              "form delegates to sympy's C printer (assumed) followed by bool_to_int (own contract)")
+
+
+@registry.spec("bool_words_replaced")
+def _bool_words_replaced(ctx, st, src, out):
+    """token by token: the words true / false become 1 / 0, every other token (identifiers that merely contain them) is unchanged"""
+    tok = lambda s: re.findall(r"[A-Za-z_]\w*|\d+(?:\.\d+)?|\S", s)  # noqa: E731
+    want = [{"true": "1", "false": "0"}.get(t, t) for t in tok(src)]
+    return tok(out) == want
+
+
+contract("gotranx.codegen.c.bool_to_int", params={"expr": "PyStr"}, ret="PyStr",
+         enum_params={"expr": ["((x > 0) ? (true) : (false))", "((truex > falsey) ? (xtruey) : (true))", "a_true + _false1 * (false)", "nothing"]},
+         ensures={"only_whole_words": "bool_words_replaced(expr, result)"},
+         properties=("C02", "C19"), note="BOUNDED instances, among them identifiers that contain the words")
+contract(CP + "_print_Float", params={"self": "any", "flt": "any"}, ret="PyStr",
+         enum_params={"self": [printer_self("true")], "flt": [hole("F", "Float", value=v) for v in (0.1, 1e-8, 1e300, -2.5, 3.0)]},
+         ensures={"round_trips_and_is_a_floating_literal": "float(result) == flt.value and ('.' in result or 'e' in result or 'inf' in result)"},
+         properties=("C02",), note="a literal like 3.0 keeps its decimal point, so C reads it as a double")
+
+JP = "gotranx.codegen.jax.JaxPrinter."
+registry.EXTERNALS["isinstance:sympy.tensor.indexed.Indexed"] = lambda ctx, st, obj: isinstance(obj, Record) and obj.fields.get("kind") == "Indexed"
+registry.EXTERNALS["Hole.base"] = lambda ctx, st, rec: rec.fields["base"]
+registry.EXTERNALS["Hole.indices"] = lambda ctx, st, rec: rec.fields["indices"]
+registry.EXTERNALS["PrinterHoles._print_Assignment"] = lambda ctx, st, rec: BoundMethod(
+    rec, "_print_Assignment", lambda c, s, e: "<inherited:" + e.fields["args"][0].fields["text"] + ">")
+core.RECORDS.setdefault("Base", {"name": "Py"})
+
+
+def _indexed(base, idx):
+    return Record("Hole", {"text": f"{base}[{idx}]", "args": [], "kind": "Indexed", "base": Record("Base", {"name": base}),
+                           "indices": [hole(str(idx))]})
+
+
+_jax_asg = [hole("A", "Assignment", [_indexed("values", i), hole("RHS")]) for i in (0, 2, 11)]
+_jax_other = [hole("A", "Assignment", [_indexed("states", 1), hole("RHS")]), hole("A", "Assignment", [_indexed("parameters", 0), hole("RHS")]),
+              hole("A", "Assignment", [hole("x"), hole("RHS")])]
+registry.SPECS["JAX_EXPECT"] = lambda ctx, st, e: (
+    f"_values_{e.fields['args'][0].fields['indices'][0].fields['text']} = RHS"
+    if e.fields["args"][0].fields.get("kind") == "Indexed" and e.fields["args"][0].fields["base"].fields["name"] == "values"
+    else "<inherited:" + e.fields["args"][0].fields["text"] + ">")
+contract(JP + "_print_Assignment", params={"self": "any", "expr": "any"}, ret="PyStr",
+         enum_params={"self": [printer_self()], "expr": _jax_asg + _jax_other},
+         ensures={"slot_n_is_written_to_the_variable_the_template_returns": "result == JAX_EXPECT(expr)"},
+         properties=("C03", "C04"), note="BOUNDED instances: values[n] = e becomes _values_n = e (the names the JAX method template collects); "
+                                         "every other assignment is left to the inherited printer")
